@@ -91,6 +91,16 @@ def telescope(sg, rule):
               "contributions[feature] written once per chain step, passed to the importance trackers")
     if not stores:
         return None
+    # every link of the chain books its credit: a store that happens only under a test of its own (`if credit:` -- zero
+    # credits skipped) leaves the tracker of that feature one observation behind
+    if stores[0][2] is not None and sg.losses:
+        base = next((set(c.guards) for e, c in walk(s.events) if e is sg.losses[-1][0]), None)
+        extra = [g for g in stores[0][2].guards if g not in base] if base is not None else []
+        run.check(not extra, rule, "chain.every-link", sg.where(stores[0][3].line if stores[0][3] else uev.line), fq,
+                  f"credit stored under {ir.show_nl(extra[0])[:100] if extra else 'no extra condition'}",
+                  f"the credit of a chain link is recorded only when {ir.show_nl(extra[0])[:120] if extra else ''} holds: features "
+                  f"whose credit is skipped miss this observation in their running statistic (which then averages over "
+                  f"fewer observations than the other estimates)", "contributions[feature] is written for every link")
     credit = stores[0][1]
     ref = ("op", "-", mu, nxt)
     good = same(credit, ref)
